@@ -435,6 +435,10 @@ def sink_lemmas(repo):
                     raise Unsupported('return value of kind %s' % (val[0] if val else None), fdef)
                 for variant in flatten(val[1]):
                     viol.extend(scan_latex(variant, mname))
+            for htype, hsrc, hline in interp.format_on_holes:
+                if htype not in ('PKG',):
+                    viol.append(('format-template', 'str.format is called on a string that holds document text '
+                                 '(hole %s, line %d): braces in it are parsed as format fields' % (htype, hline), hsrc))
             groups = {}
             for kind, detail, srcx in viol:
                 groups.setdefault((kind, srcx), detail)
